@@ -570,6 +570,8 @@ impl<H: Hal, T: Transport> VirtIOSound<H, T> {
                 }
             }
             spin_loop();
+            #[cfg(virtio_drivers_verif)]
+            crate::verif::emit(crate::verif::Event::Spin(2));
         }
 
         Ok(())
